@@ -1,0 +1,40 @@
+//go:build verif
+
+// Contracts for govc (contract-based deductive verification, see /verif/DESIGN.md).
+// This file contains comments only; it is compiled only with -tags=verif and adds no code.
+
+package main
+
+//@ package config
+//@ specfun CfgAuto(c config.Config) bool
+//@ specfun CfgVerbose(c config.Config) bool
+//@ func config.(Config).AutoResolveLRConf
+//@   trusted
+//@   ensures [fun] result == CfgAuto(recv)
+//@   assigns nothing
+//@ func config.(Config).Verbose
+//@   trusted
+//@   ensures [fun] result == CfgVerbose(recv)
+//@   assigns nothing
+//@ func config.(Config).OutDir
+//@   trusted
+//@   assigns nothing
+//@
+//@ package io
+//@ func io.WriteFileString
+//@   trusted
+//@   assigns nothing
+//@
+//@ package main
+//@
+//@ func conflictString
+//@   nobody
+//@   assigns nothing
+//@
+//@ # C04: without -a a grammar with LR(1) conflicts ends with a non-zero status; with -a, or without conflicts,
+//@ # handleConflicts returns and generation completes
+//@ func handleConflicts
+//@   prop C04
+//@   panics [exit-policy] len(conflicts) > 0 && !CfgAuto(cfg)
+//@   exit_code [non-zero] code % 256 != 0
+//@   assigns nothing
